@@ -231,12 +231,27 @@ def run(tier, seed):
         two = {k: "2" for k in variants[0]}
         ct_variants = [two] if tier == "quick" else [two, {k: "4" for k in variants[0]}] + variants
         futs += [(v, ["fit:caltrack:A"], tp.submit(run_history, ["fit:caltrack:A"], None, v, None, 3000)) for v in ct_variants]
+        # ... and, in a process with two BLAS threads, the same fit after fits of the other families: it must equal the fit made alone
+        # in such a process (whatever that is), i.e. an earlier fit must not change how many threads the later one computes with
+        f_alone2 = tp.submit(run_history, ["fit:caltrack:A"], None, two, None, 3000)
+        f_after2 = tp.submit(run_history, ["fit:hourly:A", "fit:daily:A", "fit:caltrack:A"], None, two, None, 3000)
         for v, h, f in futs:
             res = f.result()
             stats["processes"] += 1
             n_env += 1
             for op, r in zip(h, res["ops"]):
                 judge(op, r, "thread_count_environment", f"env {v} history {h}")
+        ra, rb = f_alone2.result()["ops"][0], f_after2.result()["ops"][-1]
+        stats["processes"] += 2
+        n_env += 2
+        stats["fits_compared"] += 1
+        if "raised" in ra or "raised" in rb:
+            viol.append({"clause": "fit_raised", "key": {"op": "caltrack", "context": "two_blas_threads"}, "detail": f"{ra.get('raised')} / {rb.get('raised')}"})
+        elif (ra["doc"], ra["pred"]) != (rb["doc"], rb["pred"]):
+            viol.append({"clause": "fit_not_reproducible", "key": {"family": "caltrack", "context": "after_other_fits_in_a_process_with_two_blas_threads",
+                                                                   "differs": "document" if ra["doc"] != rb["doc"] else "predictions"},
+                         "detail": f"OMP/OPENBLAS/MKL_NUM_THREADS=2: fit:caltrack:A alone gives doc={ra['doc']} pred={ra['pred']}; after fit:hourly:A, fit:daily:A in the "
+                                   f"same process doc={rb['doc']} pred={rb['pred']}"})
         # string-hash seeds: the references run under PYTHONHASHSEED=0; a fresh process normally draws a random one
         hseeds = ["1", "4242"] + (["random", "7", "123456789"] if tier == "thorough" else [])
         futs = [(hs, h, tp.submit(run_history, h, None, {"PYTHONHASHSEED": hs})) for hs in hseeds for h in HASH_HISTORIES]
